@@ -1,25 +1,47 @@
 PROP = dict(
         coq="Properties/C18.v",
+        # directed search after a broken correspondence / proof: two more seeds at twice the quick budget
+        search_rounds=2, search_env=dict(VERIF_CASES=3000),
         workloads=[
             dict(name="accrual-rates", go_test="TestC18", runner="C18",
-                 env=dict(quick=dict(VERIF_CASES=1500), thorough=dict(VERIF_CASES=40000))),
+                 env=dict(quick=dict(VERIF_CASES=1500), thorough=dict(VERIF_CASES=30000))),
+            dict(name="accrual-sites", go_test="TestC18Sites", runner="C18-sites",
+                 env=dict(quick=dict(VERIF_CASES=500), thorough=dict(VERIF_CASES=10000))),
         ],
         rule="case = a group of 1-3 calls of one REAL function on neighbouring / consecutive inputs: CalculateLendReward, CalculateBorrowInterest, "
-             "CalculateStableInterest, Rewardskeeper.CalculationOfRewards (float path; x, y, math.Pow(x,y) recorded as IEEE bit patterns), or 7-9 ascending "
+             "CalculateStableInterest, Rewardskeeper.CalculationOfRewards (float path; x, y, math.Pow(x,y) recorded as IEEE bit patterns), or (kind R) one set of "
+             "rate parameters sent through every validation path (AssetRatesParams.Validate, AssetRatesPoolPairs.Validate, both proposals' ValidateBasic, "
+             "GenesisState.Validate, the governance handler -> keeper.AddAssetRatesParams, keeper.AddAssetRatesPoolPairs) and then 7-9 ascending "
              "utilisations (0, 1 ulp, kink-1ulp, kink, random, 1) through GetUtilisationRatio/GetBorrowAPRByAssetID(both kinds)/GetLendAPR on a lend-pool fixture; "
-             "inputs from a lattice (amounts 1..2^62, rates 0..10 incl. 1e-18, seconds 0,1,6,86400,1y,30y, indices 0.005..2) mixed with random; "
-             "non-trivial = some call returned ok with a non-zero amount (or a rate was computed); distinct by digest of the case's lines",
-        modelled=["math.Pow (its observed result is an input of the model; hypotheses H1-H3 are premises of the c18_cmp_* theorems and H1-H4 are tested on every observed point, not proved)",
+             "case 0 is always the regression case of C18-F1 (UOptimal = 1); "
+             "inputs from a lattice (amounts 1..2^62, rates 0..10 incl. 1e-18, seconds 0,1,6,86400,1y,30y, indices 0.005..2, UOptimal 0, 1e-18 .. 1-1e-18, 1, 1+1e-18, 2) mixed with random; "
+             "non-trivial = some call returned ok with a non-zero amount (or the handler accepted the parameters / a rate was computed); distinct by digest of the case's lines. "
+             "Workload accrual-sites: case = 1-4 consecutive calls (increasing block time, 25% zero-time repeats) of one REAL accrual site on records written with the keepers' setters: "
+             "rewards.CalculateVaultInterest, asset.VaultIterateRewards, rewards.CalculateLockerRewards, lend.IterateLends, lend.IterateBorrow (variable and stable-rate, with "
+             "GetAverageBorrowRate / GetReserveRate / GetBorrowAPRByAssetID observed); guards varied (app / reward whitelisting, missing pair or collector lookup, zero fee, stable-mint vault, "
+             "block height 0 time base, negative elapsed time, missing or short net fees, unfunded collector, principal beyond int64); the model state (tracker, record, time base, indices) is "
+             "threaded through the history and diffed after every call; predicates holds_C18_site_* judged on the implementation's records; non-trivial = some call accrued a non-zero amount",
+        modelled=["math.Pow: its leading special cases (y == 0 || x == 1 -> 1, y == 1 -> x; src/math/pow.go) are modelled exactly (Model/Pow.v go_pow) and compared with every observation; "
+                  "otherwise its observed result is an input of the model. The only assumed property is monotonicity on the operand box [1,11] x [0,100] (PowMonoBox, the explicit premise of "
+                  "c18_cmp_nonneg / c18_cmp_monotone), tested on every pair of neighbouring observations; c18_cmp_zero_time / c18_cmp_zero_rate need no hypothesis. "
+                  "H4 (quasi-multiplicativity over consecutive intervals, pow x y1 * pow x y2 <= (1 + en/2^53) * pow x y12, the premise of c18_cmp_subadditive) is measured on every interval "
+                  "triple (en reported; en > 4096 is reported as a broken correspondence) and the proved bound is judged on the three implementation results with that en.",
                   "strconv.ParseFloat / FormatFloat as exact round-to-nearest-even (Lib/F64.v), validated bit-for-bit by the correspondence run"],
-        assumptions=["principal 0..2^63-1, rates >= 0, global index > 0 (a zero index makes Quo panic; the model returns Panic too)",
-                     "rate-model parameters 0 < UOptimal < 1, slopes >= 0, 0 <= reserve factor <= 1 (UOptimal >= 1 is the known finding C18-F1)",
-                     "c18_cmp_subadditive is proved only up to the exact core (c18_cmp_subadditive_partial); the bound through the float roundings is judged on the implementation by predicate only",
+        assumptions=["accrual sites: the bank transfers, cToken mint and statistics of IterateLends and the reserve/buy-back bookkeeping are C08's subject and are not modelled here (the harness funds the accounts so that they succeed); "
+                     "collector.LockerIterateRewards (the loop copy of the locker site) is not driven",
+                     "principal 0..2^63-1, rates >= 0, global index > 0 (a zero index makes Quo panic; the model returns Panic too)",
+                     "rate-model parameters are those accepted by AssetRatesParams.Validate (model: Rates.rates_valid, compared with the real Validate on every R case); "
+                     "c18_rate_defined additionally bounds each rate parameter below 2^128 ulps (beyond that the 315-bit Dec limit can panic)",
+                     "InitGenesis, the v2 store migration and the upgrade handlers write rate parameters with keeper.SetAssetRatesParams without validation (outside the theorems; the harness "
+                     "forces such parameters into the store and still compares the rate functions with the model)",
+                     "sub-additivity of the float compound accrual (c18_cmp_subadditive) is proved through both float roundings and the 18-decimal formatting with slack "
+                     "amount * pow(x, y12) * (en + 5) * 2^-53 + 2 ulp: amount-relative, not one ulp",
                      "sub-additivity of the index accrual holds with slack amt*(4 + H/gi1 + H/gi2 + H/gi12) ulps, not one ulp (c18_idx_excess_witness)"],
     )
 
 MANIFEST = dict(
-    level_text="All clauses of C18 proved in Coq over an exact model of the Dec arithmetic and of binary64 rounding: non-negativity, zero over zero time, monotonicity in time/rate/principal for the index accrual, stable interest and (under the tested math.Pow hypotheses H1-H3) the float compound accrual; sub-additivity over consecutive intervals with an explicit principal-proportional slack (a witness shows one-ulp slack is false); tracker carry; rate model base value, monotonicity across the kink, kink continuity bound, lend <= borrow. UOptimal = 1 is proved to panic at full utilisation and is a known finding. Tied to /repo by a differential run of the real keeper functions on every check (float path reproduced bit for bit).",
+    level_text="All clauses of C18 proved in Coq over an exact model of the Dec arithmetic and of binary64 rounding: non-negativity, zero over zero time, monotonicity in time/rate/principal for the index accrual, stable interest and (under the single tested hypothesis that math.Pow is monotone on the reachable operand box; zero over zero time and at zero rate unconditionally) the float compound accrual; sub-additivity over consecutive intervals for the index accrual AND for the float compound accrual (through the float roundings, under the tested quasi-multiplicativity H4 of math.Pow) with explicit principal-proportional slacks (a witness shows one-ulp slack is false); tracker carry; the accrual SITES (vault stability fee, locker savings, lend reward, borrow interest incl. stable-rate and reserve share): operand selection, conservation record+tracker, zero over zero time, whole histories; rate model over the parameters that AssetRatesParams.Validate accepts: defined on all of [0,1], base value, monotonicity across the kink, kink continuity bound, lend <= borrow. Tied to /repo by a differential run of the real keeper functions and of every validation path on every check (float path reproduced bit for bit).",
     design_ref="DESIGN.md section 4 C18",
-    level_note="Trusted: Coq kernel, extraction, OCaml runner, Go harness. math.Pow hypotheses H1-H4 are tested, not proved. No axioms (Closed under the global context).",
+    level_note="Trusted: Coq kernel, extraction, OCaml runner, Go harness. math.Pow monotonicity on the operand box (premise of nonneg/monotone) and H4 (premise of sub-additivity) are tested, not proved. No axioms (Closed under the global context). C18-F1 (UOptimal >= 1 accepted) is repaired: fixes/C18-F1.",
     technique="Coq proof (monotonicity / rounding bounds over exact Dec and binary64 models) + model/implementation correspondence run",
 )
